@@ -104,8 +104,9 @@ def describe(case):
                   "settings": (int(cfg.parallel.num_threads), int(cfg.parallel.max_workers), int(bool(cfg.parallel.use_cache)))}
 
 
-def observe(path, dry, plot, fail_at=None):
-    """fail_at=j: the j-th single run (counted from 0) raises RuntimeError instead of returning.
+def observe(path, dry, plot, fail_at=None, via_main=False):
+    """via_main: through the real entry point cli.main() with sys.argv = bldfm run <path> [--dry-run] [--plot].
+    fail_at=j: the j-th single run (counted from 0) raises RuntimeError instead of returning.
     -> {"raised": None | repr, "final": (nt, mw, uc) with None = not stored, "calls": [((nt, mw, uc), k, i)],
            "plots": [(file name, field token, grid token, (marker x token, marker y token))]}"""
     cli, rc, cp, plotting = _impl()
@@ -176,7 +177,15 @@ def observe(path, dry, plot, fail_at=None):
     raised = None
     final = None
     try:
-        cli.cmd_run(argparse.Namespace(config=path, dry_run=dry, plot=plot))
+        if via_main:
+            argv = sys.argv
+            sys.argv = ["bldfm", "run", path] + (["--dry-run"] if dry else []) + (["--plot"] if plot else [])
+            try:
+                cli.main()
+            finally:
+                sys.argv = argv
+        else:
+            cli.cmd_run(argparse.Namespace(config=path, dry_run=dry, plot=plot))
     except BaseException as e:  # SystemExit included
         raised = "%s: %s" % (type(e).__name__, str(e)[:200])
     finally:
@@ -285,6 +294,7 @@ def check_cli(ctx):
     """(A): every generated invocation is observed on the real code and compared, inside Coq, with Model/Cli.v"""
     cs = cases(ctx)
     items = []
+    n_main = 0
     for j, c in enumerate(cs):
         path, desc = describe(c)
         obs = norm(observe(path, c["dry"], c["plot"]))
@@ -292,6 +302,13 @@ def check_cli(ctx):
             ctx.fail("correspondence", "C16:cli-case-%d" % j, "cmd_run raises on %r" % (c,), hint={"cli": c})
             continue
         items.append((j, c, desc, obs))
+        if j % 5 == 0:
+            # the same invocation through the real entry point (argparse): `bldfm run <path> [--dry-run] [--plot]`
+            om = norm(observe(path, c["dry"], c["plot"], via_main=True))
+            n_main += 1
+            if om != obs:
+                ctx.fail("correspondence", "C16:cli-main-case-%d" % j, "cli.main() with the command line of %r does not do what cmd_run does: %r vs %r" % (c, om, obs),
+                         hint={"cli": dict(c, via_main=True)})
     terms = []
     B = 24
     for b in range(0, len(items), B):
@@ -317,9 +334,11 @@ def check_cli(ctx):
         "rule": "towers lists %r (thorough: more) x steps x timestamp kinds x (dry, plot) in {F,T}^2, the three runtime settings cycling through %r, plus "
                 "configurations load_config rejects; each invocation of cli.cmd_run is observed (calls of the single run with the settings in force at "
                 "the call, final settings, figures saved with file name / field / grid / marker) and compared inside Coq (obs_agree, vm_compute) with "
-                "Model/Cli.v run on the world of Model/CliExec.v that mirrors the configuration; non-trivial = at least two towers and two steps, not a dry run"
+                "Model/Cli.v run on the world of Model/CliExec.v that mirrors the configuration; every 5th invocation is repeated through cli.main() with the "
+                "corresponding command line (argparse) and must be observed identically; non-trivial = at least two towers and two steps, not a dry run"
                 % (TOWER_SETS, SETTINGS),
         "mismatches": len(bad),
+        "through_cli_main": n_main,
         "samples": [{"case": c, "observed": obs} for j, c, desc, obs in items[7::max(1, len(items) // 4)]][:4],
     }
     return not bad
@@ -331,13 +350,19 @@ def oracle_cli(ctx, hints):
     found = {}
     for c in pool:
         path, desc = describe(c)
-        got = norm(observe(path, c["dry"], c["plot"]))
+        got = norm(observe(path, c["dry"], c["plot"], via_main=bool(c.get("via_main"))))
         want = spec(desc, c["dry"], c["plot"])
         if got != want:
-            sig = classify(desc, c["dry"], c["plot"], got, want)
+            sig = classify(desc, c["dry"], c["plot"], got, want) + (":through-main" if c.get("via_main") else "")
             size = len(c["towers"]) * 10 + c["n"] + (5 if c["plot"] else 0)
             if sig not in found or size < found[sig][0]:
                 found[sig] = (size, c, got, want)
+        elif len(c["towers"]) == 2 and c["n"] == 2 and not c.get("via_main"):
+            gm = norm(observe(path, c["dry"], c["plot"], via_main=True))
+            if gm != want:
+                sig = classify(desc, c["dry"], c["plot"], gm, want) + ":through-main"
+                if sig not in found:
+                    found[sig] = (0, dict(c, via_main=True), gm, want)
     # a single run that FAILS must not be swallowed: the error reaches the caller, no later run is made, no figure is saved
     for c in pool:
         if c["dry"] or not c["valid"] or len(c["towers"]) * c["n"] < 3 or "cli:failing-run-swallowed" in found:
@@ -376,7 +401,7 @@ def replay_cli(body):
         want = {"raised": True, "final": want["final"], "calls": want["calls"][:c["fail_at"]], "plots": []}
         print("case     =", c, "\nimpl     =", got, "\nproperty =", want, "\n" + ("FAILS (a failing single run is swallowed or mishandled)" if got != want else "holds"))
         return 1 if got != want else 0
-    got = norm(observe(path, c["dry"], c["plot"]))
+    got = norm(observe(path, c["dry"], c["plot"], via_main=bool(c.get("via_main"))))
     want = spec(desc, c["dry"], c["plot"])
     print("case     =", c)
     print("impl     =", got)
